@@ -107,9 +107,11 @@ def count_errors(y: np.ndarray, home_streak_min: int,
     opposing team `B` would have necessarily incured the exactly same
     violations. These are then not counted.
 
-    As upper bound for the number of errors, we therefore have to add those of
-    constraints 2, 9, and 10 and get `(2*D - 1) * n + D*n - 1 + D*n`, which
-    gives us `(4*D - 1) * n - 1, where `D = (n - 1) * rounds`.
+    As a rough estimate for the number of errors of reasonable plans, we can
+    add those of constraints 2, 9, and 10 and get
+    `(2*D - 1) * n + D*n - 1 + D*n`, which gives us `(4*D - 1) * n - 1`, where
+    `D = (n - 1) * rounds`. Arbitrary game plans can exceed this estimate, see
+    :meth:`Errors.upper_bound` for a bound that holds for all game plans.
     The lower bound is obviously `0`.
 
     :param y: the game plan
@@ -350,17 +352,45 @@ class Errors(Objective):
 
     def upper_bound(self) -> int:
         """
-        Compute upper bound for errors: `(4*D - 1) * n - 1`.
+        Compute an upper bound for the number of errors.
 
         Here `D` is the number of days, `n` is the number of teams, and
-        `D = (n - 1) * rounds`. See the documentation of :func:`count_errors`.
+        `D = (n - 1) * rounds`. The estimate `(4*D - 1) * n - 1` given in
+        the documentation of :func:`count_errors` treats the errors of
+        constraint 1 as mutually exclusive with those of constraints 3 to 8
+        and bounds the errors of constraint 10 by `D*n`. Neither holds for
+        arbitrary game plans: A plan in which every team plays at home
+        against the next team on every day of `circ4`, for example, has 96
+        errors, whereas `(4*D - 1) * n - 1 = 91`. We therefore add up what
+        the single cells of a game plan can contribute at most:
 
-        :return: `(4*D - 1) * n - 1`
+        - every cell: one error for a `bye` or an inconsistent game
+          (constraints 1 and 2);
+        - every cell after the first day: a streak error of at most
+          `s = max(1, home_streak_min - 1, away_streak_min - 1)`
+          (constraints 3 to 6) and a separation error of at most
+          `p = max(0, separation_min, D - 2 - separation_max)`
+          (constraints 7 and 8);
+        - every team: a too-short streak that is still open on the last day,
+          at most `max(home_streak_min, away_streak_min) - 1`;
+        - constraint 9: at most one error per home game, i.e., `D*n`;
+        - constraint 10: at most one error per home game plus `rounds` for
+          each of the `n*(n-1)/2` pairings.
+
+        :return: `n * (D + (D-1) * (s+p) + max(home_streak_min,
+            away_streak_min) - 1) + 2*D*n + rounds * n*(n-1)/2`
         """
-        n: Final[int] = self.instance.n_cities
-        rounds: Final[int] = self.instance.rounds
+        inst: Final[Instance] = self.instance
+        n: Final[int] = inst.n_cities
+        rounds: Final[int] = inst.rounds
         days: Final[int] = (n - 1) * rounds
-        return (4 * days - 1) * n - 1
+        streak: Final[int] = max(1, inst.home_streak_min - 1,
+                                 inst.away_streak_min - 1)
+        separation: Final[int] = max(0, inst.separation_min,
+                                     days - 2 - inst.separation_max)
+        return (n * (days + ((days - 1) * (streak + separation))
+                     + max(inst.home_streak_min, inst.away_streak_min) - 1)
+                + (2 * days * n) + (rounds * ((n * (n - 1)) // 2)))
 
     def is_always_integer(self) -> bool:
         """
